@@ -420,7 +420,8 @@ CHECKS["C16"] = {
             "send_blocking, optional stopper calling request_stop(). Exactly one thread runs at a time; every pthread_mutex_lock/trylock, "
             "cond wait/signal/broadcast of the runtime and of libstdc++ is a scheduling point; a timed wait expires only by an explicit scheduler "
             "choice that advances the virtual clock. Configurations: policy {queue, burst, conflating} x capacity {1, 2, unbounded} x 9 producer "
-            "scripts (1-2 producers, 1-4 sends) x {stopper, none}. Each complete execution is checked: no value twice; nothing delivered that was "
+            "scripts (1-2 producers, 1-4 sends) x {stopper, none}; plus a conflating TSD<Int,TS<Int>> source with 6 scripts mixing key writes and "
+            "no-op removals of absent keys (every accepted key write must appear in the merged state). Each complete execution is checked: no value twice; nothing delivered that was "
             "refused or never sent; one value per cycle (burst: one tuple) at strictly increasing times; delivery order respects per-producer order "
             "and returned-before-called order, and is a prefix of it; pending_items <= capacity at every cycle boundary and after every send; a "
             "try_send refusal only if the queue can have been full or stop had begun; send_blocking fails only after stop began; nothing accepted "
@@ -438,6 +439,39 @@ CHECKS["C16"] = {
                   "checked; that is the CHESS-style coverage statement, not a sample.",
     "level_note": "Trusted: harness/vsched.h (scheduler, virtual clock) and the history oracle in harness/c16_push.cpp. Determinism is re-checked on "
                   "every run (the enumeration is executed twice for a failing case; replay divergence is a harness error).",
+}
+
+CHECKS["C17"] = {
+    "title": "Real-time loop never runs early, never drops a wake-up, always stops",
+    "level": "model_checking",
+    "technique": "stateless model checking of the real real-time executor under a controlled thread scheduler and a virtual wall clock "
+                 "(pthread/clock symbols interposed): every order of timer expiries, pushes and stop requests relative to the loop's wait/evaluate "
+                 "phases up to a preemption bound; each execution's evaluation log is checked against the expectations recorded at every schedule() call",
+    "design_ref": "DESIGN.md 2/C17",
+    "parts": [{"name": "sched", "exe": "c17_realtime", "sources": ["c17_realtime.cpp"], "shards": 32, "pin": True}],
+    "rule": "graph: a scripted timer node (start script + per-evaluation scripts of r<d> relative, a<d> absolute, w<d> wall-clock alarm incl. already-due "
+            "d<=0, L<d> burn d us of wall time) feeding a sink, optionally a queue push source feeding a second sink. Threads: E = run(), optional "
+            "producer (1-2 try_send), optional stopper (request_stop). The wall clock is virtual: it advances only when the scheduler expires a timed "
+            "wait (jump to its deadline), when a node burns time, and by 1 us per start/cycle. Configurations: 11 start scripts x 9 evaluation "
+            "scripts x pushes {0,1,2} x stopper x wall clock at start {on time, 250 us late} x end_time {1 s, 250 us}. Per execution: evaluation "
+            "times strictly increase and stay below end_time; no cycle and no timer evaluation runs before the wall clock reached its logical time; "
+            "the timer node is evaluated only at expected times; every expected time before end_time is evaluated at exactly that time (also when "
+            "the wall clock is already past it or past end_time) unless a stop request ended the run first; pushed values are delivered once, in "
+            "order, and the loop never sleeps to a forced slice expiry with one pending; without stop and before the clock reaches end_time run() "
+            "does not return and every accepted push is delivered; at most one cycle begins after request_stop() returned; no deadlock / livelock. "
+            "non-trivial = a schedule whose observable log differs from the default schedule's.",
+    "bounds": {"quick": "preemption bound 3 (timer only), 2 (one extra thread), 1 (two extra threads)", "thorough": "bound 3 / 3 / 2, all configuration combinations"},
+    "min_counters": {"quick": {"nontrivial": 200, "sched.executions": 20000}},
+    "assumptions": COMMON_ASSUMPTIONS + [
+        "Environment model: starting the graph and every evaluation cycle take at least MIN_TD (1 us) of wall time; without this a burst of pushes "
+        "inside one virtual microsecond legitimately moves evaluation time ahead of a clock that never moves (evaluation_time >= previous + MIN_TD).",
+        "The 1024-cycle MIN_TD drain cut-off past end_time (the property's stated exemption) is not exercised.",
+        "Sequentially consistent interleavings at synchronisation operations only.",
+    ],
+    "level_text": "Every schedule of the bounded thread programs with at most the stated number of preemptions / early timer firings is executed on "
+                  "the real executor and checked.",
+    "level_note": "Trusted: harness/vsched.h and the expectation rule in harness/c17_realtime.cpp (for already-due wall-clock alarms it mirrors the "
+                  "documented max(now + MIN_TD, wall) rule of node_scheduler.h).",
 }
 
 NOT_APPLICABLE = {}
